@@ -182,6 +182,10 @@ def compare(got, exp, F, name, out, hyps=()):
         for k in exp:
             compare(got[k], exp[k], F, "%s[%r]" % (name, k), out, hyps)
         return
+    if hasattr(exp, "qualname") or hasattr(got, "qualname"):
+        ok = getattr(exp, "qualname", None) == getattr(got, "qualname", 0)
+        out.append(Clause(name, "discharged" if ok else "refuted", "normaliser", "" if ok else "functions differ: %r vs %r" % (got, exp)))
+        return
     # concrete python values
     ok = type(got) is type(exp) and got == exp if not isinstance(exp, bool) else (got is exp or got == exp and isinstance(got, bool))
     if exp is None:
